@@ -267,6 +267,8 @@ package skiplist
 //@ ghost global gphys [int]*Node
 //@ ghost global gn int
 //@ ghost global goff [int]int
+//@ ufun concat(a [int]ref, n int, b [int]ref) [int]ref
+//@ axiom concat-def: forall a [int]ref, n int, b [int]ref, i int {concat(a, n, b)[i]} :: concat(a, n, b)[i] == ite(i < n, a[i], b[i - n])
 
 //@ pure segsOK(segments []*Segment) bool = (forall k int {segments[k]} :: 0 <= k && k < len(segments) ==> wfSeg(segments[k]) && segments[k].cnt < 1099511627776) &&
 //@     (forall k1, k2 int {segments[k1], segments[k2]} :: 0 <= k1 && k1 < k2 && k2 < len(segments) ==> segments[k1] != segments[k2]) &&
@@ -279,33 +281,44 @@ package skiplist
 //@ props C18 C14
 //@ requires b != nil && storeFresh(b.store) && segsOK(segments) && len(segments) < 1048576 && ptr(segments) + 8 * len(segments) <= brk()
 //@ requires[sentinels] forall k, i int {segments[k].sq0[i]} :: 0 <= k && k < len(segments) && 0 <= i && i < segments[k].cnt ==> segments[k].sq0[i] != b.store.head && segments[k].sq0[i] != b.store.tail
+//@ requires[sentinels-levels] forall k, l int {segments[k].tail[l]} :: 0 <= k && k < len(segments) && 0 <= l && l <= 32 ==> segments[k].tail[l] != b.store.head && segments[k].tail[l] != b.store.tail && segments[k].head[l] != b.store.head && segments[k].head[l] != b.store.tail
 //@ requires[stats] forall k int {segments[k]} :: 0 <= k && k < len(segments) ==> segments[k].sts != b.store.Stats
 //@ ghost-pre gn := 0
 //@ modifies heap(Node.$nx), heap(Node.$del), b.store.phys, b.store.n, gphys, gn, goff, heap($alive), heap($brk)
 //@ modifies heap(Stats.insertConflicts), heap(Stats.readConflicts), heap(Stats.softDeletes), heap(Stats.nodeAllocs), heap(Stats.nodeFrees), heap(Stats.usedBytes), heap(Stats.levelNodesCount)
 //@ loop 1 ghost goff[rangeindex] := gn
-//@ loop 1 ghost gphys :| (forall i int {gphys[i]} :: 0 <= i && i < gn ==> gphys[i] == old(gphys[i])) && (forall i int {seg.sq0[i]} :: 0 <= i && i < seg.cnt ==> gphys[gn + i] == seg.sq0[i])
+//@ use concat-def
+//@ loop 1 ghost gphys := concat(gphys, gn, seg.sq0)
 //@ loop 1 ghost gn := gn + seg.cnt
 //@ loop 1 invariant[idx] -1 <= rangeindex && rangeindex < len(segments) && len(tail) == 33 && len(head) == 33 && ptr(tail) >= old(brk()) && ptr(head) >= old(brk()) && (ptr(tail) + 8 * 33 <= ptr(head) || ptr(head) + 8 * 33 <= ptr(tail))
-//@ loop 1 invariant[acc] accNodes() && accChain()
+//@ loop 1 invariant[acc-nodes] accNodes()
+//@ loop 1 invariant[acc-chain] accChain()
+//@ loop 1 invariant[no-sentinels] forall k int {tail[k]} :: 0 <= k && k <= 32 ==> tail[k] != b.store.head && tail[k] != b.store.tail && head[k] != b.store.head && head[k] != b.store.tail
 //@ loop 1 invariant[ends] (gn == 0 ==> head[0] == nil && tail[0] == nil) && (gn > 0 ==> head[0] == gphys[0] && tail[0] == gphys[gn - 1])
 //@ loop 1 invariant[offsets] (forall k int {goff[k]} :: 0 <= k && k <= rangeindex ==> 0 <= goff[k] && goff[k] + segments[k].cnt <= gn &&
 //@     (forall i int {segments[k].sq0[i]} :: 0 <= i && i < segments[k].cnt ==> gphys[goff[k] + i] == segments[k].sq0[i]))
+//@ loop 1 invariant[seg-no-sentinels] forall k, l2 int {segments[k].tail[l2]} :: 0 <= k && k < len(segments) && 0 <= l2 && l2 <= 32 ==> segments[k].tail[l2] != b.store.head && segments[k].tail[l2] != b.store.tail && segments[k].head[l2] != b.store.head && segments[k].head[l2] != b.store.tail
 //@ loop 1 invariant[segs] segsOK(segments) && storeFresh(b.store) && b.store == old(b.store)
 //@ loop 2 invariant[idx] 0 <= l && l <= 33 && 0 <= rangeindex + 1 && rangeindex + 1 < len(segments) && seg == segments[rangeindex + 1] && len(tail) == 33 && len(head) == 33 && ptr(tail) >= old(brk()) && ptr(head) >= old(brk()) && (ptr(tail) + 8 * 33 <= ptr(head) || ptr(head) + 8 * 33 <= ptr(tail))
-//@ loop 2 invariant[acc] accNodes() && accChain()
+//@ loop 2 invariant[acc-nodes] accNodes()
+//@ loop 2 invariant[acc-chain] accChain()
+//@ loop 2 invariant[no-sentinels] forall k int {tail[k]} :: 0 <= k && k <= 32 ==> tail[k] != b.store.head && tail[k] != b.store.tail && head[k] != b.store.head && head[k] != b.store.tail
+//@ loop 2 invariant[seg-no-sentinels] forall k, l2 int {segments[k].tail[l2]} :: 0 <= k && k < len(segments) && 0 <= l2 && l2 <= 32 ==> segments[k].tail[l2] != b.store.head && segments[k].tail[l2] != b.store.tail && segments[k].head[l2] != b.store.head && segments[k].head[l2] != b.store.tail
 //@ loop 2 invariant[segs] segsOK(segments) && storeFresh(b.store) && b.store == old(b.store)
 //@ loop 2 invariant[level0-pending] l == 0 ==> (gn == 0 ==> head[0] == nil && tail[0] == nil) && (gn > 0 ==> head[0] == gphys[0] && tail[0] == gphys[gn - 1])
 //@ loop 2 invariant[level0-done] l >= 1 ==> (gn > 0 && seg.cnt > 0 ==> gphys[gn - 1].nx[0] == seg.sq0[0] && !gphys[gn - 1].del[0]) &&
 //@     head[0] == ite(gn > 0, gphys[0], ite(seg.cnt > 0, seg.sq0[0], nil)) && tail[0] == ite(seg.cnt > 0, seg.sq0[seg.cnt - 1], ite(gn > 0, gphys[gn - 1], nil))
 //@ loop 3 invariant[idx] 0 <= l && l <= 33 && len(tail) == 33 && len(head) == 33 && storeFresh(b.store) && b.store == old(b.store)
+//@ loop 3 invariant[no-sentinels] forall k int {tail[k]} :: 0 <= k && k <= 32 ==> tail[k] != b.store.head && tail[k] != b.store.tail && head[k] != b.store.head && head[k] != b.store.tail
 //@ loop 3 invariant[acc] accNodes() && accChain() && (forall i int {gphys[i]} :: 0 <= i && i < gn ==> gphys[i] != b.store.head && gphys[i] != b.store.tail)
 //@ loop 3 invariant[ends] (gn == 0 ==> head[0] == nil && tail[0] == nil) && (gn > 0 ==> head[0] == gphys[0] && tail[0] == gphys[gn - 1])
+//@ loop 3 invariant[hooked-levels] forall k int {head[k]} :: 0 <= k && k < l ==> (head[k] != nil ==> b.store.head.nx[k] == head[k] && !b.store.head.del[k]) && (tail[k] != nil ==> tail[k].nx[k] == b.store.tail && !tail[k].del[k])
 //@ loop 3 invariant[hooked] l >= 1 && gn > 0 ==> b.store.head.nx[0] == gphys[0] && !b.store.head.del[0] && gphys[gn - 1].nx[0] == b.store.tail && !gphys[gn - 1].del[0]
 //@ loop 4 invariant[idx] -1 <= rangeindex && b.store == old(b.store) && b.store != nil && (forall k int {segments[k]} :: 0 <= k && k < len(segments) ==> segments[k] != nil && segments[k].sts != b.store.Stats)
 //@ ghost-exit b.store.phys := gphys
 //@ ghost-exit b.store.n := gn
 //@ ensures[result] result == old(b.store)
+//@ ensures[hooked-all-levels] forall k int {head[k]} :: 0 <= k && k <= 32 ==> (head[k] != nil ==> result.head.nx[k] == head[k] && !result.head.del[k]) && (tail[k] != nil ==> tail[k].nx[k] == result.tail && !tail[k].del[k])
 //@ ensures[count] result.n == gn && gn >= 0
 //@ ensures[chain] gn > 0 ==> result.head.nx[0] == result.phys[0] && (forall i, j int {result.phys[i], result.phys[j]} :: 0 <= i && j == i + 1 && j < result.n ==> result.phys[i].nx[0] == result.phys[j] && !result.phys[i].del[0]) && result.phys[result.n - 1].nx[0] == result.tail
 //@ nopanic
@@ -508,4 +521,58 @@ package skiplist
 //@ call (*skiplist.MergeIterator).Next havoc *
 //@ loop 1 invariant[one-entry-per-input] -1 <= rangeindex && len(mit.h) <= rangeindex + 1
 //@ loop 1 invariant[inputs] mitOK(mit) && (forall k int {mit.iters[k]} :: 0 <= k && k < len(mit.iters) ==> monotone(mit.iters[k].s, mit.iters[k].cmp, itm))
+//@ nopanic
+
+// ---------------------------------------------------------------------------
+// C14: statistics and structure
+// ---------------------------------------------------------------------------
+
+//@ ufun sumTo(a [int]int, k int) int
+//@ axiom sumTo-def: forall a [int]int, k int {sumTo(a, k)} :: (k <= 0 ==> sumTo(a, k) == 0) && (k > 0 ==> sumTo(a, k) == sumTo(a, k - 1) + a[k - 1])
+//@ axiom sumTo-frame: forall a [int]int, k, i, v int {sumTo(store(a, i, v), k)} :: i >= k ==> sumTo(store(a, i, v), k) == sumTo(a, k)
+
+//@ func (*StatsReport).Apply
+//@ props C14
+//@ use sumTo-def sumTo-frame
+//@ requires report != nil && s != nil
+//@ requires[small] forall k int {s.levelNodesCount[k]} :: 0 <= k && k <= 32 ==> -1000000000000 < s.levelNodesCount[k] && s.levelNodesCount[k] < 1000000000000 && -1000000000000 < report.NodeDistribution[k] && report.NodeDistribution[k] < 1000000000000
+//@ modifies report.ReadConflicts, report.InsertConflicts, report.NextPointersPerNode, report.NodeDistribution, report.NodeCount, report.SoftDeletes, report.Memory, report.NodeAllocs, report.NodeFrees
+//@ loop 1 invariant[idx] -1 <= rangeindex && rangeindex <= 32
+//@ loop 1 invariant[sum] totalNodes == sumTo(report.NodeDistribution, rangeindex + 1)
+//@ loop 1 invariant[done] forall k int {report.NodeDistribution[k]} :: 0 <= k && k <= rangeindex ==> report.NodeDistribution[k] == old(report.NodeDistribution[k]) + s.levelNodesCount[k]
+//@ loop 1 invariant[todo] forall k int {report.NodeDistribution[k]} :: rangeindex < k && k <= 32 ==> report.NodeDistribution[k] == old(report.NodeDistribution[k])
+//@ loop 1 invariant[scalars] report.SoftDeletes == old(report.SoftDeletes) && report.Memory == old(report.Memory) && report.NodeAllocs == old(report.NodeAllocs) && report.NodeFrees == old(report.NodeFrees)
+//@ ensures[distribution] forall k int {report.NodeDistribution[k]} :: 0 <= k && k <= 32 ==> report.NodeDistribution[k] == old(report.NodeDistribution[k]) + s.levelNodesCount[k]
+//@ ensures[node-count] report.NodeCount == sumTo(report.NodeDistribution, 33)
+//@ ensures[scalars] report.SoftDeletes == old(report.SoftDeletes) + s.softDeletes && report.Memory == old(report.Memory) + s.usedBytes && report.NodeAllocs == old(report.NodeAllocs) + s.nodeAllocs && report.NodeFrees == old(report.NodeFrees) + s.nodeFrees
+//@ nopanic
+
+// Ghost allocator (C07/C04): mlive = blocks obtained from the configured allocator and not yet returned to it.
+// mmMode: the instance uses user-managed memory (the statements about mlive are conditional on it).
+//@ ghost global mlive [ref]bool
+//@ ghost global mmMode bool
+
+//@ callback-field Skiplist.freeNode(fn ref, n *Node)
+//@ requires[live-block] mmMode ==> mlive[n]
+//@ modifies mlive[n]
+//@ ensures mmMode ==> !mlive[n]
+
+//@ func (*Skiplist).FreeNode
+//@ props C14 C07
+//@ requires s != nil && sts != nil && n != nil && (mmMode ==> mlive[n])
+//@ modifies sts.nodeFrees, mlive[n]
+//@ ensures[counted] sts.nodeFrees == old(sts.nodeFrees) + 1
+//@ ensures[freed] mmMode ==> !mlive[n]
+
+//@ func NewWithConfig
+//@ props C14
+//@ use sl-globals
+//@ call newAccessBarrier havoc heap($alive), heap($brk)
+//@ modifies heap($alive), heap($brk), heap(Node.$nx), heap(Node.$del)
+//@ loop 1 invariant[idx] 0 <= i && i <= 33 && head != nil && tail != nil && head != tail && head >= old(brk()) && tail >= old(brk()) && s != nil && s >= old(brk())
+//@ loop 1 invariant[linked] forall l int {head.nx[l]} :: 0 <= l && l < i ==> head.nx[l] == tail && !head.del[l] && tail.nx[l] == nil && !tail.del[l]
+//@ ghost-exit s.n := 0
+//@ ensures[sentinels] result != nil && result.head != nil && result.tail != nil && result.head != result.tail && result.n == 0
+//@ ensures[all-levels-linked] forall l int {result.head.nx[l]} :: 0 <= l && l <= 32 ==> result.head.nx[l] == result.tail && !result.head.del[l]
+//@ ensures[empty-chain] wfChain(result)
 //@ nopanic
